@@ -2,9 +2,11 @@ mod engine;
 mod gen;
 mod hooks;
 mod props;
+mod refsm;
 mod scenario;
 mod sched;
 mod sim;
+mod trace;
 mod util;
 
 use engine::*;
@@ -45,6 +47,7 @@ fn main() {
         "selftest-determinism" => cmd_determinism(&args),
         "digest" => cmd_digest(&args),
         "show" => cmd_show(&args),
+        "trace" => cmd_trace(&args),
         _ => {
             eprintln!("unknown command {}", args[1]);
             2
@@ -441,3 +444,22 @@ fn cmd_show(args: &[String]) -> i32 {
     0
 }
 
+
+/// prints the full recorded history of a replay file's run (diagnostics)
+fn cmd_trace(args: &[String]) -> i32 {
+    let txt = std::fs::read_to_string(&args[2]).expect("read replay");
+    let rf: ReplayFile = serde_json::from_str(&txt).expect("parse replay");
+    let prop = props::by_id(&rf.property).expect("property");
+    let sc = Arc::new(rf.scenario.clone());
+    let kind = sched::SchedKind::Replay { choices: rf.choices.clone(), randoms: rf.randoms.clone() };
+    let mut probes = Probes::default();
+    let jd = judge(prop, &sc, kind, 0, rf.hash_seed, &mut probes);
+    for x in &jd.exec.rec.log {
+        println!("{:5} t{} s{} @{} {:?}", x.seq, x.task, x.session, x.time, x.kind);
+    }
+    println!("outcome {:?}", jd.exec.outcome);
+    for v in &jd.verdict.violations {
+        println!("VIOLATION {} {} :: {}", v.rule, v.signature, v.msg);
+    }
+    0
+}
